@@ -14,7 +14,7 @@ from streams.cluster import T0, hx
 
 HEADER = 3
 REQUIRED_SHAPES = ["evicted_for_maxkeys", "evicted_for_maxinuse", "both_limits", "maxkeys_below_partitions", "samples_1",
-                   "idle_evicted", "idle_survivor", "idle_custom_config", "ttl_evicted_on_backup", "touched_by_get"]
+                   "custom_dmap_limits", "idle_evicted", "idle_survivor", "idle_custom_config", "ttl_evicted_on_backup", "touched_by_get"]
 ESIZE = 29 + 3 + 8
 
 
@@ -31,6 +31,13 @@ class Oracle:
 
     def hit(self, s):
         self.shapes[s] = self.shapes.get(s, 0) + 1
+
+    def ev_of(self, dm):
+        """(lru, MaxKeys, MaxInuse) that apply to the DMap: its own settings when it is the custom DMap"""
+        c = self.cfg
+        if c.get("cdm") == dm:
+            return (c.get("clru", c.get("lru", "0")) == "1", int(c.get("cmaxkeys", c.get("maxkeys", 0))), int(c.get("cmaxinuse", c.get("maxinuse", 0))))
+        return (c.get("lru", "0") == "1", int(c.get("maxkeys", 0)), int(c.get("maxinuse", 0)))
 
     def idle_of(self, dm):
         if self.cfg.get("cdm") == dm:
@@ -66,7 +73,11 @@ class Oracle:
                 if vs != "-":
                     for v in vs.split(","):
                         self.present.pop((a[2], v), None)
-                    K, B = int(self.cfg.get("maxkeys", 0)), int(self.cfg.get("maxinuse", 0))
+                    lru, K, B = self.ev_of(a[2])
+                    if not lru:
+                        return "a Put into a DMap without an eviction policy evicted %s (the limits of another DMap were applied)" % vs
+                    if self.cfg.get("cdm"):
+                        self.hit("custom_dmap_limits")
                     if K and B and len(vs.split(",")) >= 1:
                         self.hit("both_limits")
                     elif K:
@@ -93,8 +104,8 @@ class Oracle:
                 return None if reply == cur[0] else "get of a stored key returned %s" % reply[:60]
             return None if reply == "nf" else "get of an absent / expired key returned %s" % reply[:60]
         if name == "wb.stats":
-            K, B = int(self.cfg.get("maxkeys", 0)), int(self.cfg.get("maxinuse", 0))
-            if not self.cfg.get("lru") == "1":
+            lru, K, B = self.ev_of(a[0])
+            if not lru:
                 return None
             for part in reply.split():
                 m, rest = part.split(":", 1)
@@ -187,15 +198,31 @@ class Gen:
         S = r.choice([1, 2, 5, 0])
         yield "watchdog 120s"
         yield "clock %d" % T0
-        yield "c.new n=%d r=%d w=1 rq=1 rr=0 parts=%d tsize=4096 lru=1 maxkeys=%d maxinuse=%d lrusamples=%d" % (n, R, parts, K, B, S)
+        where = r.choice(["global", "global", "custom", "other"])
+        if where == "global":
+            yield "c.new n=%d r=%d w=1 rq=1 rr=0 parts=%d tsize=4096 lru=1 maxkeys=%d maxinuse=%d lrusamples=%d" % (n, R, parts, K, B, S)
+        elif where == "custom":
+            # the limits belong to the DMap `dm` alone (config.DMaps.Custom); `free` has none
+            yield "c.new n=%d r=%d w=1 rq=1 rr=0 parts=%d tsize=4096 cdm=dm clru=1 cmaxkeys=%d cmaxinuse=%d clrusamples=%d" % (n, R, parts, K, B, S)
+        else:
+            # every DMap has the limits except `free`, whose own settings say: no policy
+            yield "c.new n=%d r=%d w=1 rq=1 rr=0 parts=%d tsize=4096 lru=1 maxkeys=%d maxinuse=%d lrusamples=%d cdm=free clru=0 cmaxkeys=0 cmaxinuse=0" % (n, R, parts, K, B, S)
         keys = [hx(b"e%02d" % i) for i in range(24)]
         for k in keys:
             yield "c.own dm %s" % k
+        if where != "global":
+            for k in keys:
+                yield "c.own free %s" % k
         now = T0
         for i in range(nops or 50):
             now += 1_000_000
             yield "clock %d" % now
             k = r.choice(keys)
+            if where != "global" and r.random() < 0.35:
+                # the DMap without limits keeps everything
+                yield "c.putv %s %d free %s %s" % (r.choice(["emb", "emb", "cli", "raw"]), r.randrange(n), k, hx(b"f%07d" % i))
+                yield "c.get %s %d free %s" % (r.choice(["emb", "cli"]), r.randrange(n), r.choice(keys))
+                continue
             yield "c.putv %s %d dm %s %s" % (r.choice(["emb", "emb", "cli", "raw"]), r.randrange(n), k, hx(b"v%07d" % i))
             yield "wb.stats dm"
             yield "c.get %s %d dm %s" % (r.choice(["emb", "cli"]), r.randrange(n), k)
